@@ -328,39 +328,69 @@ def run_sync(case):
             collected = []
             state = {'done': False, 'error': None}
 
+            nsess = 2 if (case.get('sessions') == 2 and case['n'] >= 1 and not case['consumer_gap']) else 1
+            gate = {'go': False, 'first_done': False}
+
             def consumer():
                 try:
-                    with SyncLogger(cf, [c[0] for c in confs] if len(confs) > 1 else confs[0][0]) as logger:
-                        for entry in logger:
-                            collected.append((entry[0], dict(entry[1]), entry[2].name))
-                            if case['consumer_gap']:
-                                s.sleep(case['consumer_gap'])
+                    logger = SyncLogger(cf, [c[0] for c in confs] if len(confs) > 1 else confs[0][0])
+                    for sess in range(nsess):
+                        got_here = 0
+                        with logger:
+                            for entry in logger:
+                                collected.append((entry[0], dict(entry[1]), entry[2].name))
+                                got_here += 1
+                                if case['consumer_gap']:
+                                    s.sleep(case['consumer_gap'])
+                                if sess < nsess - 1 and got_here == case['n'] * len(confs):
+                                    break       # this session is over; the same SyncLogger is used again below
+                        if sess < nsess - 1:
+                            gate['first_done'] = True
+                            while not gate['go']:
+                                s.sleep(0.01)
                 except Exception as e:  # noqa
                     state['error'] = e
                 state['done'] = True
             s.spawn(consumer, 'consumer')
             s.sleep(0.5)
             delivered = []
-            for lc, names in confs:
-                blk = dev.blocks.get(lc.id)
-                if not blk or not blk['started']:
-                    out.fail('sync:block-not-started', repr(dev.blocks))
-                    return out
-            for k in range(case['n']):
+
+            def emit(k, tag):
                 for ci, (lc, names) in enumerate(confs):
                     blk = dev.blocks.get(lc.id)
                     body = b''
                     vals = {}
                     for j, ((tb, vid), n) in enumerate(zip(blk['vars'], names)):
                         sz = TYPES[tb & 0xf][1]
-                        chunk = bytes(((k + 1) * (j + 3 + ci) * 29 + x) & 0xff for x in range(sz))
+                        chunk = bytes(((k + 1) * (j + 3 + ci) * 29 + x + tag) & 0xff for x in range(sz))
                         body += chunk
                         vals[n] = _ref_decode(tb & 0xf, chunk)
                     # blocks with the same period are sent in the same firmware tick: same time stamp
-                    ts = (case['ts0'] + k * 10) & 0xFFFFFF
+                    ts = (case['ts0'] + (k + 100 * tag) * 10) & 0xFFFFFF
                     link.deliver((5, 2, bytes([lc.id, ts & 0xff, (ts >> 8) & 0xff, (ts >> 16) & 0xff]) + body))
                     delivered.append((ts, vals, lc.name))
-                s.sleep(case['emit_gap'])
+            for sess in range(nsess):
+                for lc, names in confs:
+                    blk = dev.blocks.get(lc.id)
+                    if not blk or not blk['started']:
+                        out.fail('sync:block-not-started', 'session %d: %r' % (sess, dev.blocks))
+                        return out
+                old = [(lc.id, dict(dev.blocks[lc.id])) for lc, names in confs]
+                for k in range(case['n']):
+                    emit(k, sess)
+                    s.sleep(case['emit_gap'])
+                if sess < nsess - 1:
+                    for _ in range(500):
+                        if gate['first_done']:
+                            break
+                        s.sleep(0.01)
+                    # packets of the finished session that were still on their way arrive while nobody is listening
+                    for bid, blk in old:
+                        n_bytes = sum(TYPES[tb & 0xf][1] for tb, vid in blk['vars'])
+                        link.deliver((5, 2, bytes([bid, 0x78, 0, 0]) + bytes(n_bytes)))
+                    s.sleep(0.05)
+                    gate['go'] = True
+                    s.sleep(0.5)
             s.sleep(0.2)
             if case['end'] == 'close':
                 cf.close_link()
@@ -373,7 +403,7 @@ def run_sync(case):
             out.fail('sync:hang', repr(e)[:300])
             return out
         out.nontrivial = case['n'] >= 2
-        out.feat('samples-%d' % min(case['n'], 3), 'configs-%d' % case.get('nconf', 1), 'end-' + case['end'], 'slow-consumer' if case['consumer_gap'] else 'fast-consumer')
+        out.feat('samples-%d' % min(case['n'], 3), 'configs-%d' % case.get('nconf', 1), 'sessions-%d' % nsess, 'end-' + case['end'], 'slow-consumer' if case['consumer_gap'] else 'fast-consumer')
         if not state['done']:
             out.fail('sync:iterator-does-not-end', 'consumer still blocked after disconnect (%s)' % case['end'])
         if state['error'] is not None:
@@ -440,7 +470,7 @@ def log_case(draw):
             'schedule': draw(_sched), 'delays': draw(st.sampled_from([[], [0.0], [0.0], [0.0, 0.001], [0.002]]))}
 
 
-sync_case = st.fixed_dictionaries({'vars': st.lists(st.integers(0, 4), min_size=1, max_size=4), 'n': st.integers(0, 8), 'nconf': st.sampled_from([1, 1, 2]),
+sync_case = st.fixed_dictionaries({'vars': st.lists(st.integers(0, 4), min_size=1, max_size=4), 'n': st.integers(0, 8), 'nconf': st.sampled_from([1, 1, 2]), 'sessions': st.sampled_from([1, 2, 2]),
                                    'emit_gap': st.sampled_from([0.0, 0.001, 0.1]), 'consumer_gap': st.sampled_from([0, 0, 0.05, 0.3]),
                                    'ts0': st.sampled_from([0, 65530, 0xFFFFF0]), 'end': st.sampled_from(['close', 'close', 'fault']), 'schedule': _sched})
 
@@ -481,5 +511,5 @@ def subchecks(tier):
         Sub('directed', run_log, cases=directed_cases, distinct_by_construction=True),
         Sub('single-preemptions', run_log, cases=single_preemption_cases, distinct_by_construction=True),
         Sub('configs', run_log, strategy=log_case(), examples={'quick': 900, 'thorough': 30000}),
-        Sub('synclogger', run_sync, strategy=sync_case, examples={'quick': 80, 'thorough': 3000}),
+        Sub('synclogger', run_sync, strategy=sync_case, examples={'quick': 160, 'thorough': 4000}),
     ]
